@@ -115,6 +115,8 @@ func runLayer(c Case, ctx int, x *runCtx) outcome {
 		return runCorre(x, base, ctx, vec(c.Vec, c.Batch))
 	case "extended":
 		return runExtended(x, base, ctx, vec(c.Vec, c.Batch))
+	case "extended-history":
+		return runExtendedHistory(x, c.Vec, ctx, vec("seeded", c.Batch))
 	case "additive":
 		return runAdditive(x, base, ctx, vec(c.Vec, c.Batch), hexBig(c.A), hexBig(c.B))
 	case "multiply":
@@ -340,6 +342,13 @@ func allCases(res *vkit.Result, baseOK bool) (all []Case) {
 				cases = append(cases, Case{Layer: layer, Vec: v, Batch: b, Ctxs: three})
 			}
 		}
+	}
+	for _, hv := range []string{"abandoned", "swapped", "reloaded"} {
+		cases = append(cases, Case{Layer: "extended-history", Vec: hv, Batch: 256, Ctxs: []int{0}})
+	}
+	// very large batches (more than 8192 rows after inflation: the column expansion runs over several KiB)
+	for _, b := range []int{7992, 8200, 16504} {
+		cases = append(cases, Case{Layer: "extended", Vec: "seeded", Batch: b, Ctxs: []int{0}}, Case{Layer: "corre", Vec: "seeded", Batch: b, Ctxs: []int{0}})
 	}
 	apairs := [][2]string{{"0", "0"}, {"1", "q-1"}, {"s1", "s2"}}
 	if vkit.Thorough() {
